@@ -425,7 +425,6 @@ Definition ep_check (al : alignment) (cs : list dcross) : bool :=
   alignment_eqb al EqualPreamble &&
   negb (match cs with [] => true | c0 :: _ => forallb (fun c => x_P c =? x_P c0) cs end).
 
-Definition first_P (cs : list dcross) : nat := match cs with c :: _ => x_P c * x_su c | [] => 0 end.
 
 Lemma finish_cw_geom : forall mode T c c', finish_cw mode T c = Ok c' -> geom c' = geom c.
 Proof.
@@ -462,10 +461,16 @@ Proof.
   rewrite E1, E2, E3. reflexivity.
 Qed.
 
-Lemma first_P_geom : forall cs cs', map geom cs = map geom cs' -> first_P cs = first_P cs'.
+Lemma block_P_geom : forall al cs cs', map geom cs = map geom cs' -> block_P al cs = block_P al cs'.
 Proof.
-  intros [|c cs] [|c' cs'] H; cbn [map] in H; try discriminate; [reflexivity|]. assert (Hc : geom c = geom c') by congruence. assert (Hr : map geom cs = map geom cs') by congruence. unfold geom in Hc.
-  cbn. congruence.
+  intros al cs cs' H. unfold block_P. destruct al.
+  - assert (E : map (fun c => x_P c * x_su c) cs = map (fun c => x_P c * x_su c) cs')
+      by exact (map_geom_f (fun t => fst (fst t) * snd t) cs cs' H).
+    rewrite E. reflexivity.
+  - destruct cs as [|c cs], cs' as [|c' cs']; cbn [map] in H; try discriminate; [reflexivity|].
+    assert (Hc : geom c = geom c') by congruence. unfold geom in Hc. congruence.
+  - destruct cs as [|c cs], cs' as [|c' cs']; cbn [map] in H; try discriminate; [reflexivity|].
+    assert (Hc : geom c = geom c') by congruence. unfold geom in Hc. congruence.
 Qed.
 
 Lemma forallb_geom : forall (f : nat * nat * nat -> bool) cs cs', map geom cs = map geom cs' ->
@@ -486,7 +491,7 @@ Qed.
 
 Record fin (bd : blockdoc) : Prop := {
   fin_T : b_T bd = finish_T (b_alignment bd) (b_crossings bd) (b_min_trials bd);
-  fin_P : b_P bd = first_P (b_crossings bd);
+  fin_P : b_P bd = block_P (b_alignment bd) (b_crossings bd);
   fin_ep : ep_check (b_alignment bd) (b_crossings bd) = false;
   fin_keys : NoDup (map fst (b_sustain bd));
   fin_top : Forall (fun csc : pcons * scope => top_scope (snd csc)) (b_constraints bd)
@@ -494,19 +499,20 @@ Record fin (bd : blockdoc) : Prop := {
 
 Lemma finish_fin : forall bd mode bd', finish bd mode = Ok bd' ->
   b_T bd' = finish_T (b_alignment bd') (b_crossings bd') (b_min_trials bd') /\
-  b_P bd' = first_P (b_crossings bd') /\
+  b_P bd' = block_P (b_alignment bd') (b_crossings bd') /\
   ep_check (b_alignment bd') (b_crossings bd') = false /\
   b_sustain bd' = b_sustain bd /\ b_design bd' = b_design bd /\ b_rcc bd' = b_rcc bd /\
-  b_alignment bd' = b_alignment bd /\ b_min_trials bd' = b_min_trials bd.
+  b_alignment bd' = b_alignment bd /\ b_min_trials bd' = b_min_trials bd /\
+  map geom (b_crossings bd') = map geom (b_crossings bd).
 Proof.
   intros bd mode bd' H. unfold finish in H. cbv zeta in H.
-  fold (ep_check (b_alignment bd) (b_crossings bd)) in H. fold (first_P (b_crossings bd)) in H.
+  fold (ep_check (b_alignment bd) (b_crossings bd)) in H.
   destruct (ep_check _ _) eqn:E; [discriminate|]. inv_bind H as cs' Hcs H.
   assert (Hg : map geom cs' = map geom (b_crossings bd)).
   { destruct mode; [eapply mapM_finish_cw_geom; eauto|inversion Hcs; reflexivity|eapply mapM_finish_cw_geom; eauto]. }
   inversion H; subst; cbn [b_design b_crossings b_T b_P b_constraints b_min_trials b_alignment b_sustain b_rcc].
-  rewrite (finish_T_geom _ _ _ _ Hg), (first_P_geom _ _ Hg), (ep_check_geom _ _ _ Hg).
-  repeat split; try reflexivity. exact E.
+  rewrite (finish_T_geom _ _ _ _ Hg), (block_P_geom _ _ _ Hg), (ep_check_geom _ _ _ Hg).
+  repeat split; try reflexivity; assumption.
 Qed.
 
 Lemma doc_cross_fin : forall p d crs cs rcc mode al bd, doc_cross p d crs cs rcc mode al = Ok bd -> fin bd.
@@ -620,10 +626,10 @@ Lemma alignment_eqb_refl : forall a, alignment_eqb a a = true.
 Proof. destruct a; reflexivity. Qed.
 
 (** the [Merge] of one block, in REPEAT mode and with the block's own alignment *)
-Lemma merge_single : forall inner, fin inner -> b_alignment inner <> PostPreamble -> NoDup (b_design inner) ->
+Lemma merge_single : forall inner, fin inner -> NoDup (b_design inner) ->
   merge [inner] [] DRepeat (b_alignment inner) false = Ok (with_constraints inner (rescope inner)).
 Proof.
-  intros inner [HT HP Hep Hk Htop] Hal Hnd. destruct inner as [d cs T P k m al su rcc].
+  intros inner [HT HP Hep Hk Htop] Hnd. destruct inner as [d cs T P k m al su rcc].
   cbn [b_design b_crossings b_T b_P b_constraints b_min_trials b_alignment b_sustain b_rcc] in *.
   unfold merge, finish, with_constraints, rescope. cbv zeta.
   cbn [b_design b_crossings b_T b_P b_constraints b_min_trials b_alignment b_sustain b_rcc
@@ -635,39 +641,129 @@ Proof.
   - apply (add_new_fresh d []). exact Hnd.
   - rewrite HT. cbn [list_max fold_right]. rewrite Nat.max_0_r. reflexivity.
   - rewrite HP. reflexivity.
-  - destruct al; try congruence; rewrite !app_nil_r; reflexivity.
+  - rewrite !app_nil_r. destruct al; try reflexivity.
+    unfold block_P in HP. rewrite <- HP, Nat.sub_diag. reflexivity.
   - cbn [list_max fold_right]. apply Nat.max_0_r.
   - apply (dict_update_fresh su []). exact Hk.
   - apply andb_true_r.
 Qed.
 
-Lemma preamble_lt_trials : forall p bd ds, fin bd -> b_alignment bd <> PostPreamble ->
+(** *** a crossing with a preamble has sustain count 1 (Nest refuses preambles) *)
+Section PblockInd.
+Variable Q : pblock -> Prop.
+Hypothesis Hcross : forall d c cs rcc, Q (PCross d c cs rcc).
+Hypothesis Hmulti : forall d crs cs rcc mode al, Q (PMulti d crs cs rcc mode al).
+Hypothesis Hrepeat : forall b cs, Q b -> Q (PRepeat b cs).
+Hypothesis Hmerge : forall bs cs mode al, Forall Q bs -> Q (PMerge bs cs mode al).
+Hypothesis Hnest : forall o i cs al, Q o -> Q i -> Q (PNest o i cs al).
+Fixpoint pblock_ind' (b : pblock) : Q b :=
+  match b with
+  | PCross d c cs rcc => Hcross d c cs rcc
+  | PMulti d crs cs rcc mode al => Hmulti d crs cs rcc mode al
+  | PRepeat b' cs => Hrepeat b' cs (pblock_ind' b')
+  | PMerge bs cs mode al =>
+    Hmerge bs cs mode al ((fix go (l : list pblock) : Forall Q l :=
+                             match l with
+                             | [] => Forall_nil Q
+                             | x :: r => Forall_cons x (pblock_ind' x) (go r)
+                             end) bs)
+  | PNest o i cs al => Hnest o i cs al (pblock_ind' o) (pblock_ind' i)
+  end.
+End PblockInd.
+
+Lemma go_ok : forall p bs inners,
+  (fix go (l : list pblock) : res (list blockdoc) :=
+     match l with
+     | [] => Ok []
+     | x :: r => y <- doc_block p x ;; ys <- go r ;; Ok (y :: ys)
+     end) bs = Ok inners ->
+  Forall2 (fun b bd => doc_block p b = Ok bd) bs inners.
+Proof.
+  intros p bs. induction bs as [|b bs IH]; intros inners H.
+  - inversion H. constructor.
+  - inv_bind H as y Hy H. inv_bind H as ys Hys H. inversion H; subst. constructor; [exact Hy|]. apply IH. exact Hys.
+Qed.
+
+Definition suP (c : dcross) : Prop := x_su c = 1 \/ x_P c = 0.
+
+Lemma Forall_suP_geom : forall cs cs', map geom cs = map geom cs' -> Forall suP cs' -> Forall suP cs.
+Proof.
+  induction cs as [|c cs IH]; intros [|c' cs'] H H'; cbn [map] in H; try discriminate; constructor.
+  - assert (Hc : geom c = geom c') by congruence. unfold geom in Hc. inversion H'; subst. unfold suP in *.
+    assert (x_su c = x_su c') by congruence. assert (x_P c = x_P c') by congruence. lia.
+  - inversion H'; subst. apply (IH cs'); [congruence|assumption].
+Qed.
+
+Lemma merge_crossings : forall inners cs mode al nest bd, merge inners cs mode al nest = Ok bd ->
+  map geom (b_crossings bd) = map geom (flat_map b_crossings inners).
+Proof.
+  intros inners cs mode al nest bd H. unfold merge in H. destruct (_ && _); [discriminate|]. inv_bind H as bd0 Hf H.
+  apply finish_fin in Hf. cbn in Hf. inversion H; subst; cbn. apply Hf.
+Qed.
+
+Lemma doc_block_suP : forall p b bd, doc_block p b = Ok bd -> Forall suP (b_crossings bd).
+Proof.
+  intros p b. induction b as [d c cs rcc|d crs cs rcc mode al|b cs IH|bs cs mode al IH|o i cs al IHo IHi] using pblock_ind';
+    intros bd H; cbn [doc_block] in H.
+  - unfold doc_cross in H. inv_bind H as kinds Hk H. inv_bind H as xs Hxs H. inv_bind H as bd0 Hf H.
+    apply finish_fin in Hf. cbn in Hf. inversion H; subst; cbn. eapply Forall_suP_geom; [apply Hf|].
+    apply Forall_forall. intros x Hx. destruct (mapM_in _ _ _ _ Hxs Hx) as [cr [_ Hcr]]. left. eapply doc_crossing_su; eauto.
+  - unfold doc_cross in H. inv_bind H as kinds Hk H. inv_bind H as xs Hxs H. inv_bind H as bd0 Hf H.
+    apply finish_fin in Hf. cbn in Hf. inversion H; subst; cbn. eapply Forall_suP_geom; [apply Hf|].
+    apply Forall_forall. intros x Hx. destruct (mapM_in _ _ _ _ Hxs Hx) as [cr [_ Hcr]]. left. eapply doc_crossing_su; eauto.
+  - inv_bind H as inner Hi H. eapply Forall_suP_geom; [eapply merge_crossings; eauto|]. cbn. rewrite app_nil_r. apply IH. exact Hi.
+  - inv_bind H as inners Hi H. inv_bind H as al' Hal H. eapply Forall_suP_geom; [eapply merge_crossings; eauto|].
+    apply go_ok in Hi. clear -IH Hi. induction Hi as [|b bd bs inners Hb _ IHi]; cbn; [constructor|].
+    inversion IH; subst. apply Forall_app. split; [eauto|apply IHi; assumption].
+  - inv_bind H as outer Ho H. inv_bind H as inner Hi H. destruct (existsb _ _) eqn:E; [discriminate|].
+    eapply Forall_suP_geom; [eapply merge_crossings; eauto|]. cbn. rewrite app_nil_r. apply Forall_app. split.
+    + apply Forall_forall. intros x Hx. apply in_map_iff in Hx. destruct Hx as [c [<- Hc]]. right. cbn.
+      destruct (x_P c =? 0) eqn:Z; [apply Nat.eqb_eq; exact Z|]. exfalso.
+      assert (existsb (fun c => negb (x_P c =? 0)) (b_crossings outer ++ b_crossings inner) = true).
+      { apply existsb_exists. exists c. split; [apply in_or_app; left; exact Hc|rewrite Z; reflexivity]. }
+      congruence.
+    + apply IHi. exact Hi.
+Qed.
+
+Lemma list_max_in : forall x l, In x l -> x <= list_max l.
+Proof. intros x l H. pose proof (proj1 (list_max_le l (list_max l)) (le_n _)) as F. rewrite Forall_forall in F. apply F. exact H. Qed.
+
+Lemma suP_max : forall cs, Forall suP cs -> list_max (map (fun c => x_P c * x_su c) cs) <= list_max (map x_P cs).
+Proof.
+  induction cs as [|c cs IH]; intro H; [cbn; lia|]. inversion H as [|c' cs' Hc Hcs]; subst. specialize (IH Hcs).
+  change (Nat.max (x_P c * x_su c) (list_max (map (fun c => x_P c * x_su c) cs)) <= Nat.max (x_P c) (list_max (map x_P cs))).
+  destruct Hc as [E|E]; rewrite E; lia.
+Qed.
+
+Lemma preamble_lt_trials : forall p bd ds, fin bd -> Forall suP (b_crossings bd) ->
   sem_of_block p bd = Ok ds -> b_P bd < b_T bd.
 Proof.
-  intros p bd ds [HT HP _ _ _] Hal H. rewrite HT, HP. destruct (b_crossings bd) as [|c0 cs] eqn:Ecs.
-  - cbn [first_P]. apply finish_T_pos.
+  intros p bd ds [HT HP _ _ _] HsuP H. rewrite HT, HP. destruct (b_crossings bd) as [|c0 cs] eqn:Ecs.
+  - unfold block_P. destruct (b_alignment bd); cbn [map list_max fold_right]; apply finish_T_pos.
   - unfold sem_of_block in H. inv_bind H as kinds Hk H. destruct (negb _); [discriminate|].
     inv_bind H as depths Hd H. inv_bind H as factors Hf H. inv_bind H as crossings Hx H.
     rewrite Ecs in Hx. cbn [mapM] in Hx. inv_bind Hx as y Hy Hx. unfold sem_crossing in Hy.
     destruct (_ =? 0) eqn:E; [discriminate|]. apply Nat.eqb_neq in E.
     assert (HS : 0 < x_S c0 * x_su c0) by nia.
-    unfold finish_T, first_P. destruct (b_alignment bd); try congruence; cbn [map list_max fold_right]; nia.
+    unfold finish_T, block_P. destruct (b_alignment bd).
+    + pose proof (suP_max _ HsuP) as M.
+      assert (x_S c0 * x_su c0 <= list_max (map (fun c => x_S c * x_su c) (c0 :: cs))) by (cbn [map list_max fold_right]; lia).
+      lia.
+    + cbn [map list_max fold_right]. nia.
+    + cbn [map list_max fold_right]. nia.
 Qed.
 
 (** Merge([b]) (REPEAT mode, b's own alignment) and Repeat(b, []) have the semantic normal form
-    of b itself, whenever b has one (b not aligned POST_PREAMBLE - then the first crossing's
-    preamble may be shorter than the longest and the block's constraints would start later;
-    design without repeated factors) *)
+    of b itself, whenever b has one (design without repeated factors) *)
 Theorem merge_one_same : forall p b bd ds,
-  doc_block p b = Ok bd -> sem_of_block p bd = Ok ds ->
-  b_alignment bd <> PostPreamble -> NoDup (b_design bd) ->
+  doc_block p b = Ok bd -> sem_of_block p bd = Ok ds -> NoDup (b_design bd) ->
   exists ds', doc_sem_block p (PMerge [b] [] DRepeat None) = Ok ds' /\
               ds_sem ds' = ds_sem ds /\ ds_forder ds' = ds_forder ds /\ ds_T ds' = ds_T ds /\ ds_unsat ds' = ds_unsat ds.
 Proof.
-  intros p b bd ds Hbd Hds Hal Hnd. pose proof (doc_block_fin _ _ _ Hbd) as Hfin.
+  intros p b bd ds Hbd Hds Hnd. pose proof (doc_block_fin _ _ _ Hbd) as Hfin.
   destruct (doc_block_inv _ _ _ Hbd) as [HT _].
-  unfold doc_sem_block. cbn [doc_block]. rewrite Hbd. cbn [bind]. rewrite (merge_single bd Hfin Hal Hnd). cbn [bind].
-  apply sem_of_block_rescope; try assumption. eapply preamble_lt_trials; eauto.
+  unfold doc_sem_block. cbn [doc_block]. rewrite Hbd. cbn [bind]. rewrite (merge_single bd Hfin Hnd). cbn [bind].
+  apply sem_of_block_rescope; try assumption. eapply preamble_lt_trials; eauto. eapply doc_block_suP; eauto.
 Qed.
 
 Theorem repeat_nil_same : forall p b bd ds,
@@ -678,22 +774,33 @@ Theorem repeat_nil_same : forall p b bd ds,
 Proof.
   intros p b bd ds Hbd Hds Hal Hnd. pose proof (doc_block_fin _ _ _ Hbd) as Hfin.
   destruct (doc_block_inv _ _ _ Hbd) as [HT _].
-  assert (Hal' : b_alignment bd <> PostPreamble) by (rewrite Hal; discriminate).
-  unfold doc_sem_block. cbn [doc_block]. rewrite Hbd. cbn [bind]. rewrite <- Hal. rewrite (merge_single bd Hfin Hal' Hnd). cbn [bind].
-  apply sem_of_block_rescope; try assumption. eapply preamble_lt_trials; eauto.
+  unfold doc_sem_block. cbn [doc_block]. rewrite Hbd. cbn [bind]. rewrite <- Hal. rewrite (merge_single bd Hfin Hnd). cbn [bind].
+  apply sem_of_block_rescope; try assumption. eapply preamble_lt_trials; eauto. eapply doc_block_suP; eauto.
 Qed.
 
 (** ... hence the same valid sequences *)
+Lemma sem_of_block_block : forall p bd ds, sem_of_block p bd = Ok ds -> ds_block ds = bd.
+Proof.
+  intros p bd ds H. unfold sem_of_block in H. inv_bind H as kinds Hk H. destruct (negb _); [discriminate|].
+  inv_bind H as depths Hd H. inv_bind H as factors Hf H. inv_bind H as crossings Hx H. inv_bind H as constraints Hc H.
+  inversion H; reflexivity.
+Qed.
+
 Corollary repeat_nil_valid : forall p b ds,
   doc_sem_block p b = Ok ds -> b_alignment (ds_block ds) = EqualPreamble -> NoDup (b_design (ds_block ds)) ->
   exists ds', doc_sem_block p (PRepeat b []) = Ok ds' /\ forall s, valid_b (ds_sem ds') s = valid_b (ds_sem ds) s.
 Proof.
   intros p b ds H Hal Hnd. unfold doc_sem_block in H. inv_bind H as bd Hbd H.
-  assert (E : ds_block ds = bd).
-  { unfold sem_of_block in H. inv_bind H as kinds Hk H. destruct (negb _); [discriminate|].
-    inv_bind H as depths Hd H. inv_bind H as factors Hf H. inv_bind H as crossings Hx H. inv_bind H as constraints Hc H.
-    inversion H; reflexivity. }
-  rewrite E in Hal, Hnd. destruct (repeat_nil_same p b bd ds Hbd H Hal Hnd) as [ds' [H1 [H2 _]]].
+  rewrite (sem_of_block_block _ _ _ H) in Hal, Hnd. destruct (repeat_nil_same p b bd ds Hbd H Hal Hnd) as [ds' [H1 [H2 _]]].
+  exists ds'. split; [exact H1|]. intro s. rewrite H2. reflexivity.
+Qed.
+
+Corollary merge_one_valid : forall p b ds,
+  doc_sem_block p b = Ok ds -> NoDup (b_design (ds_block ds)) ->
+  exists ds', doc_sem_block p (PMerge [b] [] DRepeat None) = Ok ds' /\ forall s, valid_b (ds_sem ds') s = valid_b (ds_sem ds) s.
+Proof.
+  intros p b ds H Hnd. unfold doc_sem_block in H. inv_bind H as bd Hbd H.
+  rewrite (sem_of_block_block _ _ _ H) in Hnd. destruct (merge_one_same p b bd ds Hbd H Hnd) as [ds' [H1 [H2 _]]].
   exists ds'. split; [exact H1|]. intro s. rewrite H2. reflexivity.
 Qed.
 
